@@ -117,7 +117,18 @@ func (c13) Run(t *tape.Tape, tier Tier) *Result {
 	sim := world.NewSim(t)
 	sim.AddProcess(world.Full())
 	sim.At(0)
-	e0 := b.Build(spec)
+	var e0 error
+	if p := obs.S(func() string { e0 = b.Build(spec); return "" }); p != "" || e0 == nil {
+		if strings.Contains(p, "returned nil") {
+			// (the builder refuses to go on when a constructor handed non-nil
+			// arguments returns nil: for Join that is "nothing remains" although
+			// something does)
+			res.add(Violation{Prop: "C13", Oracle: "constructor-returns-nil", Culprit: "errors.Join", Expected: "a non-nil error", Observed: short(p)})
+			res.Desc.Tree = spec.Expr()
+			return res
+		}
+		panic(p)
+	}
 	want := obs.Tree(e0, false)
 	res.Desc.Tree = spec.Expr()
 	if wide {
